@@ -183,11 +183,11 @@ def work(arg):
                 prev_pub, prev_now = pub, now
                 if start_kind != 'now' and (now.hour, now.minute) != (0, 0):
                     key = now.date()
-                    if key in day_ast and day_ast[key] != ast:
+                    if key in day_ast and day_ast[key][0] != ast:
                         acc.violation(sig('not-constant-within-day', 'start-' + start_kind),
-                                      f'start={start}: resolves to {day_ast[key].isoformat()} and to {ast.isoformat()} '
-                                      f'on {key}', rec)
-                    day_ast.setdefault(key, ast)
+                                      f'start={start}: resolves to {day_ast[key][0].isoformat()} and to {ast.isoformat()} '
+                                      f'on {key}', dict(rec, other_now=day_ast[key][1]))
+                    day_ast.setdefault(key, (ast, now.isoformat()))
             near = (now.hour, now.minute) in ((0, 0), (0, 1), (23, 58), (23, 59))
             if near or start_kind == 'explicit' or t.minimumUpdatePeriod:
                 acc.nontriv((now.isoformat(), start, depth, mup, ref))
@@ -285,6 +285,16 @@ def replay(record):
     sref = StreamTimingReference(media_name='x', media_duration=ref[0], num_media_segments=ref[0] // ref[2],
                                  segment_duration=ref[2], timescale=ref[1])
     out = []
+    if 'other_now' in record:
+        asts = []
+        for n in (record['other_now'], record['now']):
+            t = DashTiming(datetime.datetime.fromisoformat(n), sref, make_options(record['start'], record['depth'], record['mup']))
+            asts.append(t.availabilityStartTime)
+        if asts[0] != asts[1]:
+            return [(sig('not-constant-within-day', 'start-' + record['start_kind']),
+                     f'{record["start"]} resolves to {asts[0].isoformat()} at {record["other_now"]} and to {asts[1].isoformat()} '
+                     f'at {record["now"]}')]
+        return []
     nows = [record['now']] if 'prev_now' not in record else [record['prev_now'], record['now']]
     prev = None
     for n in nows:
